@@ -27,6 +27,7 @@ import (
 	"sync"
 	"sync/atomic"
 	"time"
+	_ "time/tzdata" // zones are embedded: the check works offline from a fresh restore
 
 	"github.com/dapr/kit/byteslicepool"
 	"github.com/dapr/kit/cron"
@@ -291,6 +292,16 @@ func mustJWK(raw any) jwk.Key {
 	k, err := jwk.FromRaw(raw)
 	if err != nil {
 		panic(fmt.Sprintf("harness: jwk.FromRaw(%T): %v", raw, err))
+	}
+	return k
+}
+
+// withKid sets the worker's key ID on its key.
+func withKid(k jwk.Key, kid string) jwk.Key {
+	if kid != "" {
+		if err := k.Set(jwk.KeyIDKey, kid); err != nil {
+			panic(fmt.Sprintf("harness: setting the key ID %q: %v", kid, err))
+		}
 	}
 	return k
 }
@@ -694,6 +705,7 @@ type symWorker struct {
 	w     wspec
 	spec  refcrypto.SymSpec
 	key   jwk.Key
+	raw   []byte
 	nonce []byte
 	aad   []byte
 	n     int
@@ -706,7 +718,8 @@ func newSymWorker(w wspec, idx int, env *phaseEnv) *symWorker {
 		panic("harness: unknown symmetric algorithm " + w.CAlg)
 	}
 	s := &symWorker{w: w, spec: spec, env: env}
-	s.key = mustJWK(vk.Expand(w.Seed^0x73796d, spec.Key))
+	s.raw = vk.Expand(w.Seed^0x73796d, spec.Key)
+	s.key = withKid(mustJWK(bytes.Clone(s.raw)), w.Kid)
 	if spec.Nonce >= 0 {
 		s.nonce = vk.Expand(w.Seed^0x6e6f6e6365, spec.Nonce)
 	}
@@ -732,6 +745,11 @@ func (s *symWorker) rep(r int) string {
 	res := fmt.Sprintf("Encrypt err=%v ct=%s tag=%s", err, sum(ct), sum(tag))
 	if err != nil {
 		return res
+	}
+	// the result under the worker's OWN key, as an independent implementation computes it (a key ID is a label,
+	// nothing else of the pipeline depends on it)
+	if rct, rtag, rerr := s.spec.Encrypt(s.raw, s.nonce, keep, s.aad); rerr == nil && !(bytes.Equal(rct, ct) && bytes.Equal(rtag, tag)) {
+		res += fmt.Sprintf(" BROKEN: not the %s ciphertext and tag of this message under the worker's own key (reference ct=%s tag=%s)", s.w.CAlg, sum(rct), sum(rtag))
 	}
 	s.w.pause()
 	back, err := kit.Decrypt(ct, s.w.CAlg, s.key, s.nonce, tag, s.aad)
@@ -759,7 +777,7 @@ func newSigWorker(w wspec, idx int, env *phaseEnv) *sigWorker {
 	switch spec.Family {
 	case "rs", "ps":
 		k := []*rsa.PrivateKey{ks.RSA2048, ks.RSA2048b, ks.RSA3072}[w.Key%3]
-		s.priv, s.pub = mustJWK(k), &k.PublicKey
+		s.priv, s.pub = withKid(mustJWK(k), w.Kid), &k.PublicKey
 	case "es":
 		var k *ecdsa.PrivateKey
 		switch spec.Name {
@@ -770,10 +788,10 @@ func newSigWorker(w wspec, idx int, env *phaseEnv) *sigWorker {
 		default:
 			k = ks.P521
 		}
-		s.priv, s.pub = mustJWK(k), &k.PublicKey
+		s.priv, s.pub = withKid(mustJWK(k), w.Kid), &k.PublicKey
 	case "ed": // a key of the worker's own
 		k := ed25519.NewKeyFromSeed(vk.Expand(w.Seed^0x6564, ed25519.SeedSize))
-		s.priv, s.pub = mustJWK(k), k.Public().(ed25519.PublicKey)
+		s.priv, s.pub = withKid(mustJWK(k), w.Kid), k.Public().(ed25519.PublicKey)
 	}
 	return s
 }
@@ -798,7 +816,11 @@ func (s *sigWorker) rep(r int) string {
 	}
 	s.w.pause()
 	ok, err := kit.VerifyPublicKey(digest, sig, s.w.CAlg, s.priv)
-	res += fmt.Sprintf(" | Verify=%v err=%v peerVerify=%v", ok, err, s.spec.Verify(s.pub, digest, sig))
+	peerOK := s.spec.Verify(s.pub, digest, sig)
+	res += fmt.Sprintf(" | Verify=%v err=%v peerVerify=%v", ok, err, peerOK)
+	if !peerOK {
+		res += " BROKEN: the signature does not verify under the worker's own public key (standard library verification)"
+	}
 	other := vk.Expand(s.w.Seed+uint64(r)*15485863+1, n+1)[:max(n, 1)]
 	ok, _ = kit.VerifyPublicKey(other, sig, s.w.CAlg, s.priv)
 	res += fmt.Sprintf(" | VerifyOtherDigest=%v", ok)
@@ -823,7 +845,7 @@ func newRSAWorker(w wspec, idx int, env *phaseEnv) *rsaWorker {
 	}
 	ks := refcrypto.Keys()
 	k := []*rsa.PrivateKey{ks.RSA2048, ks.RSA2048b, ks.RSA3072}[w.Key%3]
-	x := &rsaWorker{w: w, spec: spec, priv: mustJWK(k), std: k, env: env}
+	x := &rsaWorker{w: w, spec: spec, priv: withKid(mustJWK(k), w.Kid), std: k, env: env}
 	if spec.OAEP() {
 		x.label = vk.Expand(w.Seed^0x6c61, 9)
 	}
@@ -849,6 +871,9 @@ func (x *rsaWorker) rep(r int) string {
 	back, err := kit.DecryptPrivateKey(ct, x.w.CAlg, x.priv, x.label)
 	peer, perr := x.spec.Decrypt(x.std, ct, x.label)
 	res += fmt.Sprintf(" | Decrypt err=%v roundTrip=%v | peer err=%v roundTrip=%v", err, bytes.Equal(back, pt), perr, bytes.Equal(peer, pt))
+	if perr == nil && bytes.Equal(peer, pt) && !(err == nil && bytes.Equal(back, pt)) {
+		res += " BROKEN: the standard library decrypts this ciphertext with the worker's own key, DecryptPrivateKey with the same key does not"
+	}
 	return res
 }
 
